@@ -90,7 +90,7 @@ func judgeC02(c C02Case) *Fail {
 }
 
 func c02Opts(g G) GenOpts {
-	o := GenOpts{MaxBiases: 4, ValueMode: -1, AllowProb: true, AllowDisable: true, Superfluous: true}
+	o := GenOpts{MaxBiases: 4, ValueMode: -1, AllowProb: true, AllowDisable: true, Superfluous: true, BiasLikeIds: true}
 	if g.Chance(1, 4) {
 		o.TieHeavy = true
 	}
